@@ -51,6 +51,7 @@ func loadCorpus() {
 }
 
 type fileSpec struct {
+	LinkTo  string // the target is a symbolic link to this (relative) path, which holds Old
 	Name    string
 	Old     []byte
 	Absent  bool // target does not exist before the command
@@ -136,7 +137,12 @@ func genScenario(tp *tape.Tape, idx int, thorough bool) scenario {
 				sc.Desc += fmt.Sprintf("generated:%dB ", len(text))
 			}
 			name := fmt.Sprintf("f%d.d2", f)
-			sc.Files = append(sc.Files, fileSpec{Name: name, Old: []byte(text)})
+			fsp := fileSpec{Name: name, Old: []byte(text)}
+			if tp.Chance(1, 6, "fmt.symlink") {
+				fsp.LinkTo = fmt.Sprintf("real/src%d.d2", f)
+				sc.Desc += "(symlinked) "
+			}
+			sc.Files = append(sc.Files, fsp)
 			sc.Targets = append(sc.Targets, name)
 			sc.Args = append(sc.Args, name)
 		}
@@ -163,6 +169,9 @@ func genScenario(tp *tape.Tape, idx int, thorough bool) scenario {
 	if out != "out.svg" && !old.Absent && tp.Chance(1, 2, "render.nodir") {
 		old.Absent = true
 	}
+	if !old.Absent && tp.Chance(1, 5, "render.symlink") {
+		old.LinkTo = "published/final.svg"
+	}
 	sc.Files = append(sc.Files, old)
 	sc.Targets = []string{out}
 	sc.Args = []string{}
@@ -173,7 +182,7 @@ func genScenario(tp *tape.Tape, idx int, thorough bool) scenario {
 		sc.Args = append(sc.Args, "--theme=3")
 	}
 	sc.Args = append(sc.Args, "in.d2", out)
-	sc.Desc = fmt.Sprintf("render %dB -> %s old=%dB absent=%v", len(src), out, len(old.Old), old.Absent)
+	sc.Desc = fmt.Sprintf("render %dB -> %s old=%dB absent=%v symlink=%v", len(src), out, len(old.Old), old.Absent, old.LinkTo != "")
 	return sc
 }
 
@@ -198,6 +207,19 @@ func restore(dir string, sc scenario) error {
 		p := filepath.Join(dir, f.Name)
 		if err := os.MkdirAll(filepath.Dir(p), 0755); err != nil {
 			return err
+		}
+		if f.LinkTo != "" {
+			real := filepath.Join(filepath.Dir(p), f.LinkTo)
+			if err := os.MkdirAll(filepath.Dir(real), 0755); err != nil {
+				return err
+			}
+			if err := os.WriteFile(real, f.Old, 0644); err != nil {
+				return err
+			}
+			if err := os.Symlink(f.LinkTo, p); err != nil {
+				return err
+			}
+			continue
 		}
 		if err := os.WriteFile(p, f.Old, 0644); err != nil {
 			return err
